@@ -116,7 +116,10 @@ def build_case(cid, rng):
     recv = "self" if byval else ("&%sself" % lt)
     call = "self.cfg.subj(%s)%s" % (", ".join(p.names[0] if p.form == "plain" else "__w%d" % i for i, p in enumerate(m.params)), ".await" if m.is_async else "")
     aps = [recv] + [("%s: %s" % (p.names[0] if p.form == "plain" else "__w%d" % i, p.type_text())) for i, p in enumerate(m.params)]
-    L.append("#[derive(Clone, Copy)] pub struct App { pub pad: u64, pub cfg: %s }" % cty)
+    # half of the adopting applications are `Sync` but not `Send` (the forwarding impl asks `Sync + 'static` of `T`, nothing more;
+    # an async leaf that takes the application by value is left out: its future really holds the application)
+    not_send = rng.random() < 0.5 and not (byval and m.is_async)
+    L.append("#[derive(Clone, Copy)] pub struct App { pub pad: u64, pub cfg: %s%s }" % (cty, ", pub ns: ::core::marker::PhantomData<::std::sync::MutexGuard<'static, ()>>" if not_send else ""))
     L.append("impl%s Subj%s for App { %sfn subj%s(%s)%s%s { ::vrt::recursion_guard(|| ()); %s } }" % (
         impl_g, targs_g, "async " if m.is_async else "", g_lt, ", ".join(aps), m.ret_text(), where, call))
     D = ["pub fn run() {"]
@@ -131,12 +134,12 @@ def build_case(cid, rng):
     variants = [("direct", "let c = %s;" % ctor_f("direct"), "&c", lambda a: "subj(%s)" % ", ".join([("c" if byval else "&c")] + a)),
                 ("on_c", "let c = %s;" % ctor_f("on_c"), "&c", lambda a: "c.subj(%s)" % ", ".join(a)),
                 ("on_impl_c", "let c = ::entrait::Impl::new(%s);" % ctor_f("on_impl_c"), "&*c", lambda a: "c.subj(%s)" % ", ".join(a)),
-                ("on_impl_app", "let c = ::entrait::Impl::new(App { pad: 1, cfg: %s });" % ctor_f("on_impl_app"), "&c.cfg", lambda a: "c.subj(%s)" % ", ".join(a))]
+                ("on_impl_app", "let c = ::entrait::Impl::new(App { pad: 1, cfg: %s%s });" % (ctor_f("on_impl_app"), ", ns: ::core::marker::PhantomData" if not_send else ""), "&c.cfg", lambda a: "c.subj(%s)" % ", ".join(a))]
     if static_lt:
         variants = [("direct", "let c: &'static %s = ::std::boxed::Box::leak(::std::boxed::Box::new(%s));" % (cty, ctor_f("direct")), "c", lambda a: "subj(%s)" % ", ".join(["c"] + a)),
                     ("on_c", "let c: &'static %s = ::std::boxed::Box::leak(::std::boxed::Box::new(%s));" % (cty, ctor_f("on_c")), "c", lambda a: "c.subj(%s)" % ", ".join(a)),
                     ("on_impl_c", "let c: &'static ::entrait::Impl<%s> = ::std::boxed::Box::leak(::std::boxed::Box::new(::entrait::Impl::new(%s)));" % (cty, ctor_f("on_impl_c")), "&**c", lambda a: "c.subj(%s)" % ", ".join(a)),
-                    ("on_impl_app", "let c: &'static ::entrait::Impl<App> = ::std::boxed::Box::leak(::std::boxed::Box::new(::entrait::Impl::new(App { pad: 1, cfg: %s })));" % ctor_f("on_impl_app"), "&c.cfg", lambda a: "c.subj(%s)" % ", ".join(a))]
+                    ("on_impl_app", "let c: &'static ::entrait::Impl<App> = ::std::boxed::Box::leak(::std::boxed::Box::new(::entrait::Impl::new(App { pad: 1, cfg: %s%s })));" % (ctor_f("on_impl_app"), ", ns: ::core::marker::PhantomData" if not_send else ""), "&c.cfg", lambda a: "c.subj(%s)" % ", ".join(a))]
     for vi, (lab, setup, addr_of, callf) in enumerate(variants):
         s1, e1, d1 = m.call_args(1, "v%d" % vi)
         D.append("    {")
